@@ -38,13 +38,16 @@ def gen_time(rng, grid=GRID):
     return ("T", rng.choice(grid), rng.choice(OFFSETS))
 
 
-def gen_point(rng, meas=MEAS, allow_no_time=False, extra_tag_vals=(), extra_meas=(), extra_tag_keys=(), extra_field_keys=()):
+EPOCH_GRID = [0, 0, 1, -1, -86_400_000_000, 3_600_000_000, -1_000_000, 999_999, BASE_US, -2_208_988_800_000_000]
+
+
+def gen_point(rng, meas=MEAS, allow_no_time=False, extra_tag_vals=(), extra_meas=(), extra_tag_keys=(), extra_field_keys=(), grid=None):
     """A point spec: {"t": ("T",us,off)|None, "m": str|None, "tags", "fields"}."""
     p = {}
     if allow_no_time and rng.random() < 0.1:
         p["t"] = None
     else:
-        p["t"] = gen_time(rng)
+        p["t"] = gen_time(rng, grid or GRID)
     r = rng.random()
     if r < 0.15:
         p["m"] = None  # omitted -> "_default"
@@ -189,13 +192,13 @@ def gen_update_args(rng, opts=None):
                 n = rng.choice([1, 1, 2])
                 a["tags"] = {"static": {rng.choice(TAG_KEYS + ["n"]): rng.choice(TAG_VALS) for _ in range(n)}}
             else:
-                a["tags"] = {"call": rng.choice(["tags_add_k", "tags_only_new", "tags_empty", "tags_same", "tags_none_j"])}
+                a["tags"] = {"call": rng.choice(["tags_add_k", "tags_only_new", "tags_empty", "tags_same", "tags_none_j", "tags_inplace_add", "tags_inplace_pop"])}
         if rng.random() < 0.4:
             if rng.random() < 0.5:
                 n = rng.choice([1, 1, 2])
                 a["fields"] = {"static": {rng.choice(FIELD_KEYS + ["n"]): rng.choice(FIELD_VALS) for _ in range(n)}}
             else:
-                a["fields"] = {"call": rng.choice(["fields_inc_x", "fields_only_new", "fields_empty", "fields_same", "fields_none_y"])}
+                a["fields"] = {"call": rng.choice(["fields_inc_x", "fields_only_new", "fields_empty", "fields_same", "fields_none_y", "fields_inplace_set", "fields_inplace_clear"])}
         if rng.random() < 0.25:
             ks = rng.sample(TAG_KEYS + ["n"], rng.choice([1, 1, 2]))
             a["unset_tags"] = ks[0] if len(ks) == 1 and rng.random() < 0.5 else ks
